@@ -31,6 +31,104 @@ fn ord_s(o: Option<Ordering>) -> &'static str {
     }
 }
 
+/// Seconds since the epoch as YYYYMMDDHHmmSS (proleptic Gregorian, UTC), computed independently
+/// (days-to-civil after Howard Hinnant).
+fn date14(t: u64) -> String {
+    let days = (t / 86400) as i64;
+    let rem = t % 86400;
+    let z = days + 719468;
+    let era = z.div_euclid(146097);
+    let doe = z.rem_euclid(146097);
+    let yoe = (doe - doe / 1460 + doe / 36524 - doe / 146096) / 365;
+    let y = yoe + era * 400;
+    let doy = doe - (365 * yoe + yoe / 4 - yoe / 100);
+    let mp = (5 * doy + 2) / 153;
+    let d = doy - (153 * mp + 2) / 5 + 1;
+    let m = if mp < 10 { mp + 3 } else { mp - 9 };
+    let y = if m <= 2 { y + 1 } else { y };
+    format!("{:04}{:02}{:02}{:02}{:02}{:02}", y, m, d, rem / 3600, rem % 3600 / 60, rem % 60)
+}
+
+/// Zone-version decisions (`InMemoryZoneDiff`: the end serial has to be newer than the start
+/// serial) and signature times written as dates on both sides of the 2^32 wrap.
+fn users(c: &mut Ctx) {
+    use bytes::Bytes;
+    use domain::base::iana::Rtype;
+    use domain::base::name::Name;
+    use domain::base::Ttl;
+    use domain::rdata::{Soa, ZoneRecordData};
+    use domain::zonetree::{InMemoryZoneDiffBuilder, Rrset, SharedRrset};
+    use std::str::FromStr;
+    let total = c.total(40_000, 2_000_000);
+    let apex: Name<Bytes> = Name::from_str("example.").unwrap();
+    let soa = |serial: u32| -> SharedRrset {
+        let mut r = Rrset::new(Rtype::SOA, Ttl::from_secs(3600));
+        let d: ZoneRecordData<Bytes, Name<Bytes>> = Soa::new(apex.clone(), apex.clone(), Serial(serial), Ttl::from_secs(1), Ttl::from_secs(2), Ttl::from_secs(3), Ttl::from_secs(4)).into();
+        r.push_data(d);
+        SharedRrset::new(r)
+    };
+    for idx in c.cases("users", total) {
+        let mut rng = c.case_rng("users", idx);
+        // (1) a zone diff from serial a to serial b
+        let a = match rng.below(4) { 0 => rng.u32(), 1 => 0xFFFF_FFFFu32.wrapping_sub(rng.below(300) as u32), 2 => rng.below(300) as u32, _ => 0x8000_0000u32.wrapping_add(rng.below(5) as u32).wrapping_sub(2) };
+        let d = match rng.below(5) { 0 => rng.u32(), 1 => rng.below(600) as u32, 2 => 0u32.wrapping_sub(rng.below(600) as u32), 3 => 0x8000_0000u32.wrapping_add(rng.below(5) as u32).wrapping_sub(2), _ => rng.below(0x7FFF_FFFF) as u32 };
+        let b = a.wrapping_add(d);
+        let r = crate::ctx::catch(|| {
+            let mut bld = InMemoryZoneDiffBuilder::new();
+            bld.remove(apex.clone(), Rtype::SOA, soa(a));
+            bld.add(apex.clone(), Rtype::SOA, soa(b));
+            bld.build().map(|df| (df.start_serial.into_int(), df.end_serial.into_int())).map_err(|e| format!("{:?}", e))
+        });
+        match (ref_cmp(a, b), r) {
+            (_, Err(pi)) => c.violation(&format!("panic:{}", pi.site()), &format!("panic building a zone diff {} -> {}: {}", a, b, pi.msg), c.replay_of("users", idx, json!({"a": a, "b": b}))),
+            (Some(Ordering::Less), Ok(Err(e))) => c.violation("zone-diff:forward-refused", &format!("a zone diff from serial {} to the newer serial {} (+{}) is refused: {}", a, b, d, e), c.replay_of("users", idx, json!({"a": a, "b": b}))),
+            (Some(Ordering::Less), Ok(Ok((s, e)))) => {
+                if (s, e) != (a, b) {
+                    c.violation("zone-diff:serials", "a zone diff reports other serials than its SOA records carry", c.replay_of("users", idx, json!({"a": a, "b": b})));
+                }
+                c.count(if b < a { "zone_diffs_forward_across_the_wrap" } else { "zone_diffs_forward" }, 1);
+            }
+            (Some(Ordering::Equal) | Some(Ordering::Greater), Ok(Ok(_))) => c.violation("zone-diff:backward-accepted", &format!("a zone diff from serial {} to serial {}, which is not newer, is accepted", a, b), c.replay_of("users", idx, json!({"a": a, "b": b}))),
+            (Some(_), Ok(Err(_))) => c.count("zone_diffs_backward_refused", 1),
+            (None, _) => c.count("zone_diffs_undefined_order", 1),
+        }
+        // (2) signature times in date form: the value is the time modulo 2^32, on both sides of the wrap
+        let t: u64 = match rng.below(4) {
+            0 => (1u64 << 32) - 400 + rng.below(800) as u64,
+            1 => (1u64 << 31) - 400 + rng.below(800) as u64,
+            2 => rng.below(1 << 20) as u64 * 8192 + rng.below(8192) as u64, // anywhere up to 2^33
+            _ => 1_600_000_000 + rng.below(400_000_000) as u64,
+        };
+        let text = date14(t);
+        let r = crate::ctx::catch(|| (Timestamp::from_str(&text).map(|x| x.into_int()).map_err(|_| ()), Timestamp::from_str(&format!("{}", t as u32)).map(|x| x.into_int()).map_err(|_| ())));
+        match r {
+            Err(pi) => c.violation(&format!("panic:{}", pi.site()), &format!("panic parsing the signature time {}: {}", text, pi.msg), c.replay_of("users", idx, json!({"text": text}))),
+            Ok((dform, iform)) => {
+                if dform != Ok(t as u32) {
+                    let side = if t >= 1 << 32 { "after-the-wrap" } else { "before-the-wrap" };
+                    c.violation(&format!("sigtime:date-form:{}", side), &format!("the signature time {} ({} seconds after the epoch) reads as {:?}; RFC 4034 3.2 takes it modulo 2^32: {}", text, t, dform, t as u32), c.replay_of("users", idx, json!({"text": text})));
+                }
+                if iform != Ok(t as u32) {
+                    c.violation("sigtime:integer-form", &format!("the signature time {} in integer form reads as {:?}", t as u32, iform), c.replay_of("users", idx, json!({"text": text})));
+                }
+                // a validity window of 30 days starting there: inception < expiration, whatever the wrap
+                let t2 = t + 30 * 86400;
+                if let (Ok(i), Ok(e)) = (Timestamp::from_str(&text), Timestamp::from_str(&date14(t2))) {
+                    if !(i < e) || e < i {
+                        c.violation("sigtime:window-order", &format!("inception {} is not before expiration {}", text, date14(t2)), c.replay_of("users", idx, json!({"text": text})));
+                    }
+                }
+                c.count(if t >= 1 << 32 { "sigtimes_after_the_wrap" } else { "sigtimes_before_the_wrap" }, 1);
+            }
+        }
+        c.evals_n(2);
+        c.sig(&("users", ref_cmp(a, b).map(|o| o as i8), b < a, t >> 29));
+    }
+    for k in ["zone_diffs_forward", "zone_diffs_forward_across_the_wrap", "zone_diffs_backward_refused", "sigtimes_after_the_wrap", "sigtimes_before_the_wrap"] {
+        c.floor(k, 10);
+    }
+}
+
 /// Check one (base, difference) pair with a shift; returns a violation text.
 #[inline]
 fn check_pair(a: u32, d: u32, shift: u32) -> Result<Option<Ordering>, (String, String)> {
@@ -167,6 +265,8 @@ pub fn run(c: &mut Ctx) {
         c.evals_n(1000);
         crate::ctx::beat();
     }
+    // ---- users of the arithmetic: the places where "which one is newer" is decided
+    users(c);
     let _ = nviol;
     c.count("cmp_less", outcome_counts[0]);
     c.count("cmp_equal", outcome_counts[1]);
